@@ -311,3 +311,269 @@ def k4(rep, F):
         rep.add(Finding("K4", b["path"], "unsorted", "fields are not ordered by stamp before they are split",
                         b["file"], b["line"]))
     return r
+
+
+# ---------------------------------------------------------------------------
+# K5: the consumed set is always addressed with the key of the entry whose values are in hand
+
+ENTRY_TY = re.compile(r"(?:std::string::)?String, &?(?:std::vec::)?Vec<\((?:std::string::)?String, usize\)>")
+TRIPLE_TY = re.compile(r"\((?:std::string::)?String, (?:std::string::)?String, usize\)")
+
+
+def _pat_binds(p, out, path=()):
+    if not isinstance(p, dict):
+        return
+    if p.get("k") == "bind":
+        out.append((p["id"], path, p))
+        if p.get("sub"):
+            _pat_binds(p["sub"], out, path)
+    for i, q in enumerate(p.get("pats") or []):
+        _pat_binds(q, out, path + ((p.get("k"), i),))
+    if p.get("pat"):
+        _pat_binds(p["pat"], out, path)
+    for f in p.get("fields") or []:
+        _pat_binds(f.get("pat") if isinstance(f, dict) and "pat" in f else f, out, path)
+
+
+def _chain_root(n):
+    n = peel(n)
+    while isinstance(n, dict) and n.get("k") == "mcall":
+        n = peel(n.get("recv"))
+    return n
+
+
+class _Binds:
+    """where every local of one function body was bound: pattern, tuple it sits in, and the source expression"""
+
+    def __init__(self, body):
+        self.rec = {}
+        self._scan(body)
+
+    def _add(self, pat, ctx):
+        bs = []
+        _pat_binds(pat, bs)
+        tup = None
+        # innermost tuple pattern
+        def find_tup(p):
+            nonlocal tup
+            if not isinstance(p, dict):
+                return
+            if p.get("k") == "ptup":
+                tup = p
+            for q in p.get("pats") or []:
+                find_tup(q)
+            if p.get("pat"):
+                find_tup(p["pat"])
+        find_tup(pat)
+        for bid, path, node in bs:
+            self.rec[bid] = {"pat": pat, "tup": tup, "ctx": ctx, "node": node}
+
+    def _scan(self, n):
+        for x in walk(n):
+            k = x.get("k")
+            if k == "for":
+                self._add(x.get("pat"), {"kind": "for", "src": x.get("iter"), "ty": x.get("it") or ""})
+            elif k in ("letx", "let") and x.get("pat") is not None:
+                self._add(x["pat"], {"kind": "let", "src": x.get("init"), "ty": x.get("ty") or ""})
+            elif k == "mcall":
+                for a in x.get("args") or []:
+                    if isinstance(a, dict) and a.get("k") == "closure":
+                        ty = " ".join([x.get("rt") or ""] + list(x.get("ga") or [])[:1])
+                        for p in a.get("params") or []:
+                            self._add(p, {"kind": "closure", "src": x.get("recv"), "ty": ty, "m": x.get("m")})
+
+    def key_for(self, lid, depth=0):
+        """the key (('local', id) | ('place', text) | ('none', why)) of the map entry local `lid` belongs to"""
+        r = self.rec.get(lid)
+        if r is None or depth > 4:
+            return ("none", "unbound")
+        tup, ctx = r["tup"], r["ctx"]
+        src = ctx.get("src")
+        if tup is not None:
+            pats = tup.get("pats") or []
+            ty = ctx.get("ty") or ""
+            is_entry = len(pats) == 2 and ENTRY_TY.search(ty) and not _is_valpos(ty)
+            is_triple = len(pats) == 3
+            if is_entry or is_triple:
+                first = pats[0]
+                while isinstance(first, dict) and first.get("k") == "pref":
+                    first = first.get("pat")
+                if isinstance(first, dict) and first.get("k") == "bind":
+                    if first["id"] == lid:
+                        return ("self", lid)
+                    return ("local", first["id"])
+                return ("none", "the entry's key is discarded by the pattern")
+            # (value, pos) element of a values list: the key is that of the list
+            if isinstance(src, dict) and is_call(src, "get_next_available"):
+                a = src.get("args") or []
+                return _keyexpr(a[0]) if a else ("none", "?")
+            root = _chain_root(src)
+            if isinstance(root, dict) and root.get("k") == "local":
+                return self.key_for(root["id"], depth + 1)
+            return ("none", "values of unknown origin")
+        # plain binding: `Some(values) = fields.get(K)`
+        if isinstance(src, dict) and src.get("k") == "mcall" and src.get("m") == "get":
+            a = src.get("args") or []
+            return _keyexpr(a[0]) if a else ("none", "?")
+        root = _chain_root(src)
+        if isinstance(root, dict) and root.get("k") == "local" and root["id"] != lid:
+            return self.key_for(root["id"], depth + 1)
+        return ("none", "unknown origin")
+
+
+def _is_valpos(ty):
+    """iterator/element type whose items are (String, usize) pairs themselves (not entries of the map)"""
+    t = ty.strip()
+    return bool(re.search(r"Iter<'_, \((?:std::string::)?String, usize\)>", t)) and not ENTRY_TY.search(
+        re.sub(r"Iter<'_, \((?:std::string::)?String, usize\)>", "", t))
+
+
+def _keyexpr(n):
+    n = peel(n)
+    if isinstance(n, dict) and n.get("k") == "local":
+        return ("local", n["id"])
+    from .facts import place_str
+    return ("place", place_str(n) or "?")
+
+
+def k5(rep, F):
+    r = rep.rule("K5", "key agreement of the consumption tracker: every consumed_indices.get(K), "
+                       "get_next_available(K, values) and mark_consumed(K, pos) addresses the consumed set with the "
+                       "key of the very map entry its values / position come from (bound in the same entry "
+                       "pattern, or the argument of the fields.get that produced them)", floor=8)
+    for b in F.bodies:
+        if "body" not in b or b.get("exp") or not (b.get("file") or "").endswith("swift_parser.rs"):
+            continue
+        if b.get("impl_self", "").endswith("FieldConsumptionTracker"):
+            continue
+        uses = []
+        parents = {}
+
+        def index(n, par):
+            if isinstance(n, dict):
+                if "k" in n:
+                    parents[id(n)] = par
+                    par = n
+                for k, v in n.items():
+                    if k in ("pat", "pats", "params"):
+                        continue
+                    if isinstance(v, (dict, list)):
+                        index(v, par)
+            elif isinstance(n, list):
+                for x in n:
+                    index(x, par)
+        index(b["body"], None)
+        for n in walk(b["body"]):
+            if n.get("k") != "mcall":
+                continue
+            if n.get("m") == "get" and isinstance(peel(n.get("recv")), dict) \
+                    and peel(n["recv"]).get("k") == "field" and peel(n["recv"]).get("name") == "consumed_indices":
+                uses.append(("get", n))
+            elif is_call(n, "FieldConsumptionTracker::get_next_available"):
+                uses.append(("next", n))
+            elif is_call(n, "FieldConsumptionTracker::mark_consumed"):
+                uses.append(("mark", n))
+        if not uses:
+            continue
+        r["analysed"] += 1
+        B = _Binds(b["body"])
+        for kind, n in uses:
+            r["instances"] += 1
+            a = n.get("args") or []
+            K = _keyexpr(a[0]) if a else ("none", "?")
+            want = None
+            if kind in ("next", "mark") and len(a) >= 2:
+                d = peel(a[1])
+                if isinstance(d, dict) and d.get("k") == "local":
+                    want = B.key_for(d["id"])
+            if kind == "get":
+                # position tested against the set in the chained closure(s)
+                top = n
+                while parents.get(id(top)) is not None and parents[id(top)].get("k") == "mcall" \
+                        and peel(parents[id(top)].get("recv")) is top:
+                    top = parents[id(top)]
+                pos = None
+                for x in walk(top):
+                    if x.get("k") == "mcall" and x.get("m") == "contains":
+                        for y in x.get("args") or []:
+                            y = peel(y)
+                            if isinstance(y, dict) and y.get("k") == "local":
+                                pos = y["id"]
+                if pos is None:
+                    # hoisted lookup: `let set = tracker.consumed_indices.get(K)`, tested later
+                    par = parents.get(id(top))
+                    if par is not None and par.get("k") in ("let", "letx"):
+                        bs = []
+                        _pat_binds(par.get("pat"), bs)
+                        held = {bid for bid, _, _ in bs}
+                        for x in walk(b["body"]):
+                            if x.get("k") == "mcall" and x.get("m") == "contains":
+                                t = x
+                                while parents.get(id(t)) is not None and parents[id(t)].get("k") != "mcall":
+                                    t = parents[id(t)]
+                                # climb to the chain that owns the closure holding this contains()
+                                q = parents.get(id(x))
+                                owner = None
+                                while q is not None:
+                                    if q.get("k") == "mcall":
+                                        rt_ = _chain_root(q)
+                                        if isinstance(rt_, dict) and rt_.get("k") == "local" and rt_["id"] in held:
+                                            owner = q
+                                            break
+                                    q = parents.get(id(q))
+                                if owner is not None:
+                                    for y in x.get("args") or []:
+                                        y = peel(y)
+                                        if isinstance(y, dict) and y.get("k") == "local":
+                                            pos = y["id"]
+                if pos is not None:
+                    want = B.key_for(pos)
+                else:
+                    # nearest enclosing closure/for whose pattern is a map entry
+                    p = parents.get(id(n))
+                    while p is not None and want is None:
+                        if p.get("k") == "mcall":
+                            for c in p.get("args") or []:
+                                if isinstance(c, dict) and c.get("k") == "closure" and any(x is n for x in walk(c)):
+                                    bs = []
+                                    for pp in c.get("params") or []:
+                                        _pat_binds(pp, bs)
+                                    for bid, _, _ in bs:
+                                        kf = B.key_for(bid)
+                                        if kf[0] in ("self", "local"):
+                                            want = ("local", kf[1])
+                                    if want is None and bs == [] and c.get("params"):
+                                        want = ("none", "the entry's key is discarded by the pattern")
+                        elif p.get("k") == "for":
+                            bs = []
+                            _pat_binds(p.get("pat"), bs)
+                            for bid, _, _ in bs:
+                                kf = B.key_for(bid)
+                                if kf[0] in ("self", "local"):
+                                    want = ("local", kf[1])
+                        p = parents.get(id(p))
+            if want is None:
+                rep.add(Finding("K5", b["path"], "%s:unpaired" % kind,
+                                "%s at line %s: cannot pair the key with the entry its data comes from"
+                                % (n.get("m"), n.get("ln")), b["file"], n.get("ln")))
+                continue
+            if want[0] == "self":
+                want = ("local", want[1])
+            if want != K:
+                def show(t):
+                    if t[0] == "local":
+                        rr = B.rec.get(t[1])
+                        return "`%s`" % (rr["node"]["name"] if rr else _param_name(b, t[1]))
+                    return "`%s`" % t[1] if t[0] == "place" else t[1]
+                rep.add(Finding("K5", b["path"], "%s:key" % kind,
+                                "%s at line %s addresses the consumed set with %s but its values/position belong "
+                                "to the entry keyed %s" % (n.get("m"), n.get("ln"), show(K), show(want)),
+                                b["file"], n.get("ln")))
+    return r
+
+
+def _param_name(b, lid):
+    for n in walk(b["body"]):
+        if n.get("k") == "local" and n.get("id") == lid:
+            return n.get("name")
+    return "#%s" % lid
